@@ -6,12 +6,12 @@ def take(mod, name, entries, newname=None):
     u['entries'] = entries; u['validate'] = entries[:1]
     if newname: u['name'] = newname
     return u
-UNITS = [take(C01, 'map', ['step', 'history']), take(C01, 'multimap', ['step']),
+UNITS = [take(C01, 'map', ['step', 'history']), take(C01, 'multimap', ['step', 'history']),
          take(C02, 'hashmap', ['history', 'step']), take(C02, 'hashset', ['step']), take(C02, 'poolmap', ['history', 'step']),
          take(C03, 'list', ['history']), take(C03, 'poollist', ['history', 'step']),
          take(C04, 'poollist', ['history', 'step'], 'poollist_tracked')]
 BOUNDS = {
-    'quick': 'the C01-C03 harnesses record the address of every element when it is inserted and compare &*iterator with it after every later operation (AVL rotations and two-child removals from every pre-state of height <= 3, hash chain unlinking, list relinking, swap of two containers, clear of the other container); PoolList<Tracked>: copy-construction and assignment counters stay 0',
+    'quick': 'the C01-C03 harnesses record the address of every element when it is inserted and compare &*iterator with it after every later operation (AVL rotations and two-child removals from every pre-state of height <= 3, hash chain unlinking, list relinking, swap of two containers, clear of the other container); slot discipline after every operation: the free list is a simple chain and contains no live element (a later insert would otherwise construct on top of a live element); PoolList<Tracked>: copy-construction and assignment counters stay 0',
     'thorough': 'bounds of the thorough tiers of C01-C03',
 }
 OUTSIDE = 'the clients named in the anchors (Server, Future, Callback) are covered by their own properties; containers larger than the C01-C03 bounds'
